@@ -125,3 +125,19 @@ func WSignExtend(b, x W) W {
 
 func WFromU64(v uint64) W { return bigToW(new(big.Int).SetUint64(v)) }
 func WEqual(a, b W) bool  { return a == b }
+
+func WAddMod(a, b, m W) W {
+	if wToBig(m).Sign() == 0 {
+		return W{}
+	}
+	s := new(big.Int).Add(wToBig(a), wToBig(b))
+	return bigToW(s.Mod(s, wToBig(m)))
+}
+func WMulMod(a, b, m W) W {
+	if wToBig(m).Sign() == 0 {
+		return W{}
+	}
+	s := new(big.Int).Mul(wToBig(a), wToBig(b))
+	return bigToW(s.Mod(s, wToBig(m)))
+}
+func WExp(b, e W) W { return bigToW(new(big.Int).Exp(wToBig(b), wToBig(e), two256)) }
